@@ -11,6 +11,7 @@ package cache
 //@ define eff(d, D) = ite(d == DefaultExpiration, D, d)
 //@ define expAt(d, D, t) = ite(eff(d, D) > 0, t + eff(d, D), 0)
 //@ define isExpired(e, t) = e > 0 && t > e
+//@ define addOverflows(a, b) = a + b < a
 //@ define DEXP(c) = c.defaultExpiration.v.(time.Duration)
 //@ define cfgOK(c) = is(c.defaultExpiration.v, time.Duration) && is(c.evictedCallback.v, EvictedCallback)
 //@ define cfgOKOf(c) = is(c.defaultExpiration.v, time.Duration) && is(c.evictedCallback.v, EvictedCallbackOf)
@@ -31,6 +32,9 @@ package cache
 //@ func (*xsyncMap).expiration
 //@   requires c != nil && cfgOK(c)
 //@   ensures {C09} post.value: e == expAt(d, DEXP(c), now)
+//@   ensures {C09} post.exact: eff(d, DEXP(c)) > 0 && !addOverflows(now, eff(d, DEXP(c))) ==> e - now == eff(d, DEXP(c)) && e > now
+//@   ensures {C09} post.exact.far-future: eff(d, DEXP(c)) > 0 && addOverflows(now, eff(d, DEXP(c))) ==> e > now
+//@   ensures {C09} post.never: eff(d, DEXP(c)) <= 0 ==> e == 0
 
 // ---------------------------------------------------------------------------------------------
 // Cache (string keys, interface{} values).  P(c) = view(c.items) is the physical content: it may hold
@@ -238,6 +242,9 @@ package cache
 //@ func (*xsyncMapOf[K, V]).expiration
 //@   requires c != nil && cfgOKOf(c)
 //@   ensures {C09} post.value: e == expAt(d, DEXP(c), now)
+//@   ensures {C09} post.exact: eff(d, DEXP(c)) > 0 && !addOverflows(now, eff(d, DEXP(c))) ==> e - now == eff(d, DEXP(c)) && e > now
+//@   ensures {C09} post.exact.far-future: eff(d, DEXP(c)) > 0 && addOverflows(now, eff(d, DEXP(c))) ==> e > now
+//@   ensures {C09} post.never: eff(d, DEXP(c)) <= 0 ==> e == 0
 
 // ---------------------------------------------------------------------------------------------
 // CacheOf[K, V] (generic twin).  P(c) = view(c.items) is the physical content: it may hold
